@@ -19,6 +19,7 @@ type Engine struct {
 	prog         *ssa.Program
 	sv           *Solver
 	globals      map[*ssa.Global]ObjID
+	sentinels    map[*ssa.Global]ObjID
 	Paths        int
 	Completed    int
 	Violations   []Violation
@@ -125,17 +126,45 @@ func (e *Engine) globalObj(st *State, g *ssa.Global) ObjID {
 	if id, ok := e.globals[g]; ok {
 		if _, present := st.heap[id]; !present {
 			// global created by another path after this state forked: zero-init here too
-			st.heap[id] = newObjFor(g.Type().(*types.Pointer).Elem())
+			st.heap[id] = e.newGlobalContent(st, g)
 		}
 		return id
 	}
-	if !e.tolerant && g.Pkg != nil && !e.initPkgs[g.Pkg.Pkg.Path()] && !zeroOKGlobal(g) {
+	if !e.tolerant && g.Pkg != nil && !e.initPkgs[g.Pkg.Pkg.Path()] && !zeroOKGlobal(g) && !sentinelErrGlobal(g) {
 		panic(unsupported{"global " + g.String() + " of a package whose initialiser was not interpreted"})
 	}
-	o := newObjFor(g.Type().(*types.Pointer).Elem())
-	id := st.alloc(o)
+	id := st.alloc(nil)
 	e.globals[g] = id
+	st.heap[id] = e.newGlobalContent(st, g)
 	return id
+}
+
+// sentinelErrGlobal: exported error variables (io.EOF, os.ErrDeadlineExceeded, ...) of packages whose
+// initialiser is not interpreted are modelled as distinct opaque errors: only their identity matters.
+func sentinelErrGlobal(g *ssa.Global) bool {
+	if g.Pkg == nil || !types.Identical(g.Type().(*types.Pointer).Elem(), types.Universe.Lookup("error").Type()) {
+		return false
+	}
+	return strings.HasPrefix(g.Name(), "Err") || g.Name() == "EOF"
+}
+
+func (e *Engine) newGlobalContent(st *State, g *ssa.Global) *Object {
+	o := newObjFor(g.Type().(*types.Pointer).Elem())
+	if !e.tolerant && g.Pkg != nil && !e.initPkgs[g.Pkg.Pkg.Path()] && sentinelErrGlobal(g) {
+		sid, ok := e.sentinels[g]
+		if !ok {
+			sid = st.alloc(&Object{typ: opaqueErrType, slots: []Value{}})
+			if e.sentinels == nil {
+				e.sentinels = map[*ssa.Global]ObjID{}
+			}
+			e.sentinels[g] = sid
+		} else if _, present := st.heap[sid]; !present {
+			st.heap[sid] = &Object{typ: opaqueErrType, slots: []Value{}}
+		}
+		o.slots[0] = Iface{typ: opaqueErrType, val: Pointer{obj: sid, off: BV(64, 0)}}
+		modelsUsed["sentinel error of an uninterpreted package as a distinct opaque error"]++
+	}
+	return o
 }
 
 // zeroOKGlobal: globals of un-initialised packages that are correct as zero values.
@@ -688,6 +717,10 @@ func (e *Engine) doReturn(st *State, vals []Value) {
 		res = TupleV(vals)
 	}
 	if len(st.frames) == 0 {
+		if st.curTID != 0 {
+			e.threadExit(st)
+			return
+		}
 		st.done = true
 		st.result = res
 		return
@@ -802,6 +835,10 @@ func (e *Engine) exec(st *State, f *Frame, ins ssa.Instruction) {
 	case *ssa.BinOp:
 		f.env[i] = e.binop(st, i, e.get(st, i.X), e.get(st, i.Y))
 	case *ssa.UnOp:
+		if i.Op == token.ARROW {
+			e.execRecv(st, f, i)
+			return
+		}
 		x := e.get(st, i.X)
 		switch i.Op {
 		case token.MUL:
@@ -979,7 +1016,8 @@ func (e *Engine) exec(st *State, f *Frame, ins ssa.Instruction) {
 	case *ssa.Go:
 		// single-threaded model: the spawned function is not run; its effects (channel pumps, timers)
 		// are outside every claim. Recorded so the evidence lists it.
-		modelsUsed["go statement: spawned goroutine not run"]++
+		fnv, args := e.resolveCall(st, &i.Call)
+		e.spawn(st, fnv, args)
 	case *ssa.MakeChan:
 		sz := term(e.get(st, i.Size))
 		capN := 0
@@ -988,17 +1026,9 @@ func (e *Engine) exec(st *State, f *Frame, ins ssa.Instruction) {
 		}
 		f.env[i] = Pointer{obj: st.alloc(&Object{typ: i.Type(), isChan: true, chanCap: capN}), off: BV(64, 0)}
 	case *ssa.Send:
-		ch, ok := e.get(st, i.Chan).(Pointer)
-		if !ok || ch.obj == 0 {
-			panic(unsupported{"send on nil channel (blocks forever)"})
-		}
-		o := st.wobj(ch.obj)
-		if !o.isChan {
-			panic(unsupported{"send on non-channel object"})
-		}
-		// a send that would block is accepted: the single-threaded model has an environment that
-		// always drains (sends are recorded in order)
-		o.vals = append(o.vals, e.get(st, i.X))
+		e.execSend(st, f, i)
+	case *ssa.Select:
+		e.execSelect(st, f, i)
 	case *ssa.Jump:
 		e.jump(st, f, f.blk.Succs[0])
 	case *ssa.If:
@@ -2101,7 +2131,13 @@ func (e *Engine) builtin(st *State, name string, args []Value, call *ssa.Call, p
 			o := st.obj(x.obj)
 			// exact only if all keys are pairwise distinct constants
 			return BV(64, uint64(len(o.keys)))
-		case Pointer: // *[N]T
+		case Pointer: // *[N]T or channel
+			if _, isCh := call.Call.Args[0].Type().Underlying().(*types.Chan); isCh {
+				if o, _ := chanObj(st, x); o != nil {
+					return BV(64, uint64(len(o.vals)))
+				}
+				return BV(64, 0)
+			}
 			at := call.Call.Args[0].Type().Underlying().(*types.Pointer).Elem().Underlying().(*types.Array)
 			return BV(64, uint64(at.Len()))
 		case ArrayV:
@@ -2111,6 +2147,11 @@ func (e *Engine) builtin(st *State, name string, args []Value, call *ssa.Call, p
 		switch x := args[0].(type) {
 		case SliceV:
 			return x.cap
+		case Pointer:
+			if o, _ := chanObj(st, x); o != nil {
+				return BV(64, uint64(o.chanCap))
+			}
+			return BV(64, 0)
 		}
 	case "append":
 		return e.appendOp(st, args[0].(SliceV), args[1], call, pos)
@@ -2153,7 +2194,13 @@ func (e *Engine) builtin(st *State, name string, args []Value, call *ssa.Call, p
 		return Ite(lt, b, a)
 	case "close":
 		if p, ok := args[0].(Pointer); ok && p.obj != 0 {
+			if st.obj(p.obj).chanClosed {
+				e.goPanic(st, "close of closed channel", pos)
+			}
 			st.wobj(p.obj).chanClosed = true
+			st.stalled = 0
+		} else {
+			e.goPanic(st, "close of nil channel", pos)
 		}
 		return TupleV{}
 	case "Sizeof", "Alignof":
